@@ -159,6 +159,7 @@ Disclaimer - are given in Deb822 value form (continuation lines start with a bla
 or tab and contain a non-blank), because that is what their str API accepts.
 """
 import io
+import re
 
 PROP = 'C17'
 LEVEL = 'exploration'
